@@ -13,6 +13,7 @@ META = {
     'note': 'Trusted: TLC; projection reads DiskDevice._locks._locking_parameters[n].lock_set (named in the property\'s observe_at). Outcomes the statement leaves open '
             '(success of a non-conflicting LOCK, opening an INPUT file twice, LOCK/SHARED clauses of OPEN) are not constrained. Ranges with start > stop are outside the fragment.',
 }
+META['text'] += ' GET #n / PUT #n without a record number are judged as the access to the record after the last one accessed through that number (Locks_Trace.pos), and the driver steps up to foreign lock ranges with the implicit form.'
 
 MODE_STMT = {'I': 'OPEN "%s" FOR INPUT AS %d', 'O': 'OPEN "%s" FOR OUTPUT AS %d', 'A': 'OPEN "%s" FOR APPEND AS %d',
              'R': 'OPEN "%s" FOR RANDOM AS %d LEN=4'}
